@@ -39,10 +39,7 @@ fn main() {
         let prop = v["property"].as_str().unwrap_or("").to_string();
         let ctx = Ctx::new(&prop, Tier::Quick);
         watchdog(1800);
-        let code = match prop.as_str() {
-            "C02" => props::c02::replay(&ctx, &v),
-            _ => None,
-        };
+        let code = props::REGISTRY.iter().find(|e| e.id == prop).and_then(|e| (e.replay)(&ctx, &v));
         let _ = std::fs::remove_dir_all(&ctx.scratch_base);
         match code {
             Some(c) => std::process::exit(c),
@@ -63,15 +60,11 @@ fn main() {
     };
     watchdog(tier.pick(1500, 6 * 3600));
     let ctx = Ctx::new(&prop, tier);
-    let level = match prop.as_str() {
-        "C02" => {
-            props::c02::main(&ctx);
-            "exploration"
-        }
-        _ => {
-            eprintln!("unknown property {}", prop);
-            std::process::exit(2)
-        }
+    let Some(entry) = props::REGISTRY.iter().find(|e| e.id == prop) else {
+        eprintln!("unknown property {}", prop);
+        std::process::exit(2)
     };
+    (entry.main)(&ctx);
+    let level = entry.level;
     std::process::exit(finish(&ctx, level));
 }
